@@ -43,6 +43,9 @@ func world(thorough bool) *chainlab.World {
 		w.AddBlock(a4, "a5", labnet.BlockOpt{})
 	}
 	w.AddBlockEvents()
+	// a2 may also arrive carrying a header link nobody signed that names the right source with a wrong height (links
+	// are not covered by the block hash): the node's own vote for a2 must still be remembered when b2 arrives
+	w.Events = append(w.Events, chainlab.Event{Kind: chainlab.EvBlockSL, Block: a2, Src: 0, JunkLink: true, Name: "B:a2+junk-link"})
 	// validator 1: an equivocating / surrounding set of links; validator 2, 3: enough to justify a2 / b2
 	w.AddVote(1, 0, a2)
 	w.AddVote(1, 0, b2)
